@@ -1,5 +1,6 @@
 """Per-property generators (Hypothesis strategies built by construction from
 terminating gadgets), budgets, non-triviality rules."""
+import os
 from hypothesis import strategies as st
 
 
@@ -32,8 +33,11 @@ def op(name, a=0, b=0, c=0):
     return (name, a, b, c)
 
 
+LONG_STALL_POINTS = 1000000000
+
+
 @st.composite
-def dirty_wrap(draw, strat):
+def dirty_wrap(draw, strat, tier="quick"):
     """one case in five initialises its objects in memory that is not zero (cfg dirty = byte pattern 0xA5 / 0xFF / 0x01 / 0x80):
     a stack slot, a recycled heap chunk, an object destroyed and initialised again"""
     case = draw(strat)
